@@ -21,6 +21,7 @@ import (
 	"github.com/ethereum/go-ethereum/crypto"
 	"github.com/ethereum/go-ethereum/rlp"
 	"github.com/polynetwork/poly/common"
+	ptypes "github.com/polynetwork/poly/core/types"
 	"github.com/polynetwork/poly/native/service/governance/side_chain_manager"
 	hscom "github.com/polynetwork/poly/native/service/header_sync/common"
 	"github.com/polynetwork/poly/native/service/utils"
@@ -245,7 +246,11 @@ func registerChain(w *world.World, chainID, router, btw uint64, ccmc, extraInfo 
 const destChainID = 77
 
 func newEnv(ad *adapter, chainID, evmID, period, btw uint64, ccmc []byte, epoch uint64) *chainEnv {
-	w := world.New(4, world.Opts{})
+	return newEnvIn(world.New(4, world.Opts{}), ad, chainID, evmID, period, btw, ccmc, epoch)
+}
+
+// newEnvIn registers one more side chain in an existing world.
+func newEnvIn(w *world.World, ad *adapter, chainID, evmID, period, btw uint64, ccmc []byte, epoch uint64) *chainEnv {
 	if epoch == 0 {
 		epoch = 8
 	}
@@ -266,19 +271,27 @@ func newEnv(ad *adapter, chainID, evmID, period, btw uint64, ccmc []byte, epoch 
 	return e
 }
 
-func (e *chainEnv) syncGenesis(genesis []byte, signers []common.Address) world.Result {
+func (e *chainEnv) genesisTx(genesis []byte, signers []common.Address) *ptypes.Transaction {
 	p := &hscom.SyncGenesisHeaderParam{ChainID: e.chainID, GenesisHeader: genesis}
 	sink := common.NewZeroCopySink(nil)
 	p.Serialization(sink)
-	return e.w.Invoke(utils.HeaderSyncContractAddress, hscom.SYNC_GENESIS_HEADER, sink.Bytes(), signers)
+	return e.w.MakeTx(utils.HeaderSyncContractAddress, hscom.SYNC_GENESIS_HEADER, sink.Bytes(), signers)
 }
 
-func (e *chainEnv) syncHeaders(hs [][]byte) world.Result {
+func (e *chainEnv) syncGenesis(genesis []byte, signers []common.Address) world.Result {
+	return e.w.Exec(e.genesisTx(genesis, signers))
+}
+
+func (e *chainEnv) headersTx(hs [][]byte) *ptypes.Transaction {
 	relayer := world.Acct(41).Address
 	p := &hscom.SyncBlockHeaderParam{ChainID: e.chainID, Address: relayer, Headers: hs}
 	sink := common.NewZeroCopySink(nil)
 	p.Serialization(sink)
-	return e.w.Invoke(utils.HeaderSyncContractAddress, hscom.SYNC_BLOCK_HEADER, sink.Bytes(), []common.Address{relayer})
+	return e.w.MakeTx(utils.HeaderSyncContractAddress, hscom.SYNC_BLOCK_HEADER, sink.Bytes(), []common.Address{relayer})
+}
+
+func (e *chainEnv) syncHeaders(hs [][]byte) world.Result {
+	return e.w.Exec(e.headersTx(hs))
 }
 
 // --- black-box readers of the light client's storage
@@ -676,22 +689,54 @@ func newGenesisHeader(num uint64, list []ecommon.Address, coinbase ecommon.Addre
 }
 
 // startChain installs the trust root through the real syncGenesisHeader (operator witness).
-func startChain(e *chainEnv, gnum uint64, list, prev []ecommon.Address, coinbase ecommon.Address, root ecommon.Hash) (*chainModel, error) {
-	g := newGenesisHeader(gnum, list, coinbase, root)
-	r := e.syncGenesis(genesisJSON(g, gnum-1, prev), []common.Address{e.w.Operator()})
+// trustRoot is a prepared (not yet installed) trust root: the document syncGenesisHeader expects
+// and the model that holds once it is installed.
+type trustRoot struct {
+	raw []byte
+	m   *chainModel
+}
+
+// install pushes the trust root through the real syncGenesisHeader with the given witnesses.
+func (t *trustRoot) install(signers []common.Address) world.Result {
+	return t.m.e.syncGenesis(t.raw, signers)
+}
+
+// confirm marks the trust root installed in the model after checking it is stored under its hash.
+func (t *trustRoot) confirm() error {
+	if t.m.e.storedRaw(t.m.genesis.hash) == nil {
+		return fmt.Errorf("genesis header not stored under its hash")
+	}
+	if !t.m.genesis.stored {
+		t.m.markStored(t.m.genesis)
+	}
+	return nil
+}
+
+func startRoot(t *trustRoot) (*chainModel, error) {
+	e := t.m.e
+	r := t.install([]common.Address{e.w.Operator()})
 	if !r.OK() {
 		return nil, fmt.Errorf("syncGenesisHeader: %v", r.Err)
 	}
 	e.w.NextBlock()
+	if err := t.confirm(); err != nil {
+		return nil, err
+	}
+	return t.m, nil
+}
+
+func prepareChain(e *chainEnv, gnum uint64, list, prev []ecommon.Address, coinbase ecommon.Address, root ecommon.Hash) *trustRoot {
+	g := newGenesisHeader(gnum, list, coinbase, root)
 	m := &chainModel{e: e, byHash: map[ecommon.Hash]*node{}}
 	gn := &node{h: g, hash: g.Hash(), td: new(big.Int).Set(g.Difficulty), snap: genesisSnap(e.ad, g, prev), label: "genesis"}
 	m.genesis = gn
 	m.add(gn)
-	if e.storedRaw(gn.hash) == nil {
-		return nil, fmt.Errorf("genesis header not stored under its hash")
-	}
-	m.markStored(gn)
-	return m, nil
+	return &trustRoot{raw: genesisJSON(g, gnum-1, prev), m: m}
+}
+
+// startChain installs the trust root through the real syncGenesisHeader (operator witness).
+func startChain(e *chainEnv, gnum uint64, list, prev []ecommon.Address, coinbase ecommon.Address, root ecommon.Hash) (*chainModel, error) {
+	return startRoot(prepareChain(e, gnum, list, prev, coinbase, root))
 }
 
 // goodChild builds a header on p that satisfies the reference predicate: an allowed signer
